@@ -297,26 +297,64 @@ def recon_checks(ctx, sp, mr, rng):
                     break
         except Exception as e:
             bad.setdefault("recon-exception", ("non-Cartesian SenseRecon raised %r" % e, {"kind": "impl-exception"}))
-        # TV: two solvers must agree on the documented objective
-        lam = 0.05
-        objs = {}
-        for solver in ("PrimalDualHybridGradient", "ADMM"):
-            ctx.count("recon:TotalVariationRecon", key=(r, solver), sample={"ishape": ish, "coils": nc, "lamda": lam, "solver": solver})
+        # dominant l2 term (lamda above the largest eigenvalue of A^H A): default step sizes must account for it
+        A = mr.linop.Sense(mps)
+        lbig = 2.0 * float(np.max(np.sum(np.abs(mps) ** 2, axis=0)))          # ||A^H A|| = max_r sum_c |S_c(r)|^2 for Cartesian SENSE
+        for name, kw in (("default", {}), ("GradientMethod", {"solver": "GradientMethod", "max_iter": 400})):
+            ctx.count("recon:SenseRecon-dominant-l2", key=(r, name), sample={"ishape": ish, "coils": nc, "lamda": lbig, "solver": name})
             try:
-                app = mr.app.TotalVariationRecon(ksp.copy(), mps, lam, solver=solver, max_iter=1500 if solver[0] == "P" else 300,
-                                                 show_pbar=False)
-                x = app.run()
-                A = mr.linop.Sense(mps)
-                G = sp.linop.FiniteDifference(ish)
-                objs[solver] = 0.5 * np.linalg.norm(A(x) - ksp) ** 2 + lam * np.abs(G(x)).sum()
+                x = mr.app.SenseRecon(ksp.copy(), mps, lamda=lbig, show_pbar=False, **kw).run()
+                g = A.H(A(x) - ksp) + lbig * x
+                if not np.all(np.isfinite(x)) or np.linalg.norm(g) > 1e-3 * (1 + np.linalg.norm(A.H(ksp))):
+                    bad.setdefault("senserecon-dominant-l2", ("SenseRecon(%s) with lamda = %.3g > ||A^H A|| is not a minimiser (normal-equation residual %.2e)"
+                                                              % (name, lbig, float(np.linalg.norm(g))),
+                                                              {"kind": "oracle", "ishape": ish, "coils": nc, "lamda": lbig, "solver": name}))
             except Exception as e:
-                bad.setdefault("recon-exception", ("TotalVariationRecon raised %r" % e, {"kind": "impl-exception"}))
-        if len(objs) == 2:
-            a, b_ = objs.values()
-            if abs(a - b_) > 2e-3 * (1 + min(a, b_)):
-                bad.setdefault("tvrecon", ("TotalVariationRecon solvers disagree on the documented objective (%g vs %g)" % (a, b_),
-                                           {"kind": "oracle", "ishape": ish, "coils": nc, "lamda": lam}))
+                bad.setdefault("recon-exception", ("SenseRecon(%s, dominant lamda) raised %r" % (name, e), {"kind": "impl-exception"}))
+        # TV on 2-D and 3-D images: every solver must reach the minimum of the DOCUMENTED objective
+        # 1/2||Ax-y||^2 + lamda ||Gx||_1, G = circular first differences along EVERY image axis (written out here, independent of
+        # sigpy's FiniteDifference), computed by an independent dense ADMM with exact solves
+        for ish_tv in (ish, [2, 3, 3] if r % 2 == 0 else [3, 2, 2]):
+            mps_tv = mps if ish_tv is ish else crand(rng, [nc] + ish_tv)
+            x_tv = crand(rng, ish_tv)
+            ksp_tv = sp.fft(mps_tv * x_tv, axes=list(range(-len(ish_tv), 0)))
+            lam = 0.05 if ish_tv is ish else 0.3
+            A_tv = mr.linop.Sense(mps_tv)
+            N = int(np.prod(ish_tv))
+            Ad = linser_dense(A_tv)
+            eye = np.eye(N).reshape([N] + ish_tv)
+            Gd = np.concatenate([(eye - np.roll(eye, 1, axis=1 + a)).reshape(N, N).T for a in range(len(ish_tv))], axis=0)
+            yv = ksp_tv.ravel()
+            F = lambda xx: 0.5 * np.linalg.norm(Ad @ xx - yv) ** 2 + lam * np.abs(Gd @ xx).sum()       # noqa: E731
+            rho = 1.0
+            H = np.linalg.inv(Ad.conj().T @ Ad + rho * Gd.conj().T @ Gd + 1e-12 * np.eye(N))
+            xr, v, u = np.zeros(N, complex), np.zeros(Gd.shape[0], complex), np.zeros(Gd.shape[0], complex)
+            for _ in range(3000):
+                xr = H @ (Ad.conj().T @ yv + rho * Gd.conj().T @ (v - u))
+                w = Gd @ xr + u
+                v = w * np.maximum(1 - (lam / rho) / np.maximum(np.abs(w), 1e-300), 0)
+                u = u + Gd @ xr - v
+            fref = F(xr)
+            for solver in ("PrimalDualHybridGradient", "ADMM"):
+                ctx.count("recon:TotalVariationRecon:%dD" % len(ish_tv), key=(r, solver, len(ish_tv)),
+                          sample={"ishape": ish_tv, "coils": nc, "lamda": lam, "solver": solver})
+                try:
+                    x = mr.app.TotalVariationRecon(ksp_tv.copy(), mps_tv, lam, solver=solver, max_iter=3000 if solver[0] == "P" else 400,
+                                                   show_pbar=False).run()
+                    fx = F(np.asarray(x).ravel())
+                    if not fx <= fref + 3e-3 * (1 + fref):
+                        bad.setdefault("tvrecon", ("TotalVariationRecon(%s) on a %d-D image does not reach the minimum of 1/2||Ax-y||^2 + lamda||Gx||_1 "
+                                                   "with differences along every image axis (%g vs %g)" % (solver, len(ish_tv), fx, fref),
+                                                   {"kind": "oracle", "ishape": ish_tv, "coils": nc, "lamda": lam, "solver": solver,
+                                                    "objective": fx, "reference": fref}))
+                except Exception as e:
+                    bad.setdefault("recon-exception", ("TotalVariationRecon raised %r" % e, {"kind": "impl-exception"}))
     return bad
+
+
+def linser_dense(A):
+    from vlib import linser
+    return linser.dense(A)
 
 
 def replay(obj):
